@@ -14,7 +14,7 @@ From FatVerif Require Import Model.Base Model.Str Model.Slot Model.Time Model.Ta
   Model.ShortName Model.DirSlots Model.VolDir Model.VolFile Model.FlushM Model.VolSession Spec.Image Spec.Abs Spec.ByteFile
   Proofs.ImageProofs Proofs.TableProofs Proofs.FatProofs Proofs.FileProofs Proofs.CrossProofs Proofs.RegionsProofs
   Proofs.DirSlotsProofs Proofs.VolDirProofs Proofs.VolFileProofs.
-From FatVerif Require Spec.Wf Proofs.TimeProofs.
+From FatVerif Require Spec.Wf Proofs.TimeProofs Proofs.FormatImageAbs.
 Import ListNotations.
 Open Scope N_scope.
 Ltac Zify.zify_post_hook ::= Z.to_euclidean_division_equations.
@@ -233,10 +233,10 @@ Record RunFrame (im0 im : image) (l : list N) : Prop := {
   rf_fat : forall x, 2 <= x < total + 2 -> ~ free0 im0 x -> fat_val g im x = fat_val g im0 x;
   rf_bytes : forall a, ~ in_store_area g a ->
                (forall c, 2 <= c < total + 2 -> free0 im0 c -> ~ in_cluster g c a) -> img_get im a = img_get im0 a;
-  rf_else : (forall x, 2 <= x < total + 2 -> free0 im0 x) -> forall x, 2 <= x < total + 2 -> ~ In x l -> free0 im x }.
+  rf_else : forall x, 2 <= x < total + 2 -> ~ In x l -> free0 im0 x -> free0 im x }.
 
 Lemma run_frame_start im0 : RunFrame im0 im0 [].
-Proof. constructor; [intros x []|reflexivity|reflexivity|]. intros H x R _. exact (H x R). Qed.
+Proof. constructor; [intros x []|reflexivity|reflexivity|]. intros x _ _ H. exact H. Qed.
 
 Lemma run_frame_step im0 im fi h sz l im' fi' h' sz' l' :
   VolInv g im fi h sz l -> VolInv g im' fi' h' sz' l' ->
@@ -258,9 +258,9 @@ Proof.
   - exact F1'.
   - intros x R Hn. rewrite <- (F2 x R Hn). apply Hfv; [exact R| |]; intros Hin; apply Hn; [exact (F1 x Hin)|exact (F1' x Hin)].
   - intros a Ha Hc. rewrite <- (F3 a Ha Hc). apply Hby; [exact Ha|]. intros c Hin. exact (Hc c (R' c Hin) (F1' c Hin)).
-  - intros Hall x R Hn. destruct (in_dec N.eq_dec x l) as [Hin|Hnin].
+  - intros x R Hn H0. destruct (in_dec N.eq_dec x l) as [Hin|Hnin].
     + exact (Hrel x Hin Hn).
-    + unfold free0. rewrite (Hfv x R Hnin Hn). exact (F4 Hall x R Hnin).
+    + unfold free0. rewrite (Hfv x R Hnin Hn). exact (F4 x R Hnin H0).
 Qed.
 
 (* HISTORIES, with the frame relative to the starting image and the editor *)
@@ -1018,7 +1018,8 @@ Theorem session_flush_decodes acc im fi name now ops range im1 :
        (forall c, 2 <= c < g_clusters g + 2 -> fat_val g im c = FFree -> ~ in_cluster g c a) ->
        img_get (s_im st) a = img_get im a) /\
     (forall c, 2 <= c < g_clusters g + 2 -> fat_val g im c <> FFree ->
-       fat_val g (s_im st) c = fat_val g im c /\ cluster_bytes g (s_im st) c = cluster_bytes g im c).
+       fat_val g (s_im st) c = fat_val g im c /\ cluster_bytes g (s_im st) c = cluster_bytes g im c) /\
+    (forall c, 2 <= c < g_clusters g + 2 -> fat_val g im c = FFree -> ~ In c l -> fat_val g (s_im st) c = FFree).
 Proof.
   intros g Hg Hb Hfi Hiss Hint Hnow Hops Hclk Hc.
   pose proof (fixed_root_vgeom_ok g Hg) as Hok.
@@ -1097,11 +1098,102 @@ Proof.
     - intros c _ _. apply (root_not_cluster g c 37 Hg). lia. }
   split.
   { intros a Ha Hns Hcl'. rewrite (Hout23 a Ha). exact (Hfr02 a Ha Hns Hcl'). }
-  intros c R Hnf.
-  assert (fat_val g im1 c <> FFree) as Hnf1 by (rewrite (fat_val_frame g im im1 c Hg Hout01 (in_range_intro g c R)); exact Hnf).
-  destruct (SNF c (in_range_intro g c R) Hnf1) as [Fv Cb]. split.
-  - rewrite (fat_val_frame g im2 im3 c Hg Hout23 (in_range_intro g c R)), Fv. apply (fat_val_frame g im im1 c Hg Hout01 (in_range_intro g c R)).
-  - rewrite (cluster_bytes_frame g im2 im3 c ltac:(pose proof (fg_bps g Hg); lia) Hout23), Cb.
-    apply (cluster_bytes_frame g im im1 c ltac:(pose proof (fg_bps g Hg); lia) Hout01).
+  split.
+  { intros c R Hnf.
+    assert (fat_val g im1 c <> FFree) as Hnf1 by (rewrite (fat_val_frame g im im1 c Hg Hout01 (in_range_intro g c R)); exact Hnf).
+    destruct (SNF c (in_range_intro g c R) Hnf1) as [Fv Cb]. split.
+    - rewrite (fat_val_frame g im2 im3 c Hg Hout23 (in_range_intro g c R)), Fv. apply (fat_val_frame g im im1 c Hg Hout01 (in_range_intro g c R)).
+    - rewrite (cluster_bytes_frame g im2 im3 c ltac:(pose proof (fg_bps g Hg); lia) Hout23), Cb.
+      apply (cluster_bytes_frame g im im1 c ltac:(pose proof (fg_bps g Hg); lia) Hout01). }
+  intros c R Hf Hnin. rewrite (fat_val_frame g im2 im3 c Hg Hout23 (in_range_intro g c R)).
+  apply (rf_else g im1 im2 l2 F2 c R Hnin). unfold free0.
+  rewrite (fat_val_frame g im im1 c Hg Hout01 (in_range_intro g c R)). exact Hf.
 Qed.
 End SessionThm.
+
+(* ================================================================ 6. counting and well-formedness around one file *)
+Lemma count_free_from_le g im : forall n c, count_free_from g im c n <= N.of_nat n.
+Proof. induction n as [|n IH]; intros c; cbn [count_free_from]; [lia|]. specialize (IH (c + 1)). destruct (fat_val g im c); lia. Qed.
+
+(* a free count equal to the number of entries: every entry is free *)
+Lemma all_free_of_count g im : forall n c, count_free_from g im c n = N.of_nat n ->
+  forall x, c <= x < c + N.of_nat n -> fat_val g im x = FFree.
+Proof.
+  induction n as [|n IH]; intros c H x Hx; [lia|]. cbn [count_free_from] in H.
+  pose proof (count_free_from_le g im n (c + 1)) as Hle.
+  destruct (N.eq_dec x c) as [->|Hne].
+  - destruct (fat_val g im c); try reflexivity; lia.
+  - apply (IH (c + 1)); [|lia]. destruct (fat_val g im c); lia.
+Qed.
+
+Lemma conv_fatv_of v : FormatImageAbs.conv (fatv_of v) = v.
+Proof. destruct v; reflexivity. Qed.
+
+Lemma count_free_cnt g im : count_free g im = cnt (fun x => fatv_of (fat_val g im x)) 2 (N.to_nat (g_clusters g)).
+Proof. unfold count_free. apply FormatImageAbs.count_free_from_cnt. intros x _. rewrite conv_fatv_of. reflexivity. Qed.
+
+(* every cluster was free; now exactly the (distinct, in-range) clusters of [l] are allocated: the free count dropped by
+   their number *)
+Lemma count_free_after g im im' l : NoDup l ->
+  (forall x, In x l -> 2 <= x < g_clusters g + 2 /\ fat_val g im x = FFree /\ fat_val g im' x <> FFree) ->
+  (forall x, 2 <= x < g_clusters g + 2 -> ~ In x l -> fat_val g im' x = fat_val g im x) ->
+  count_free g im = count_free g im' + N.of_nat (length l).
+Proof.
+  intros Hnd Hin Hout. rewrite !count_free_cnt. apply cnt_free_list; [exact Hnd| | |].
+  - intros x Hx. destruct (Hin x Hx) as (R & _ & NF). split; [lia|]. intros E. apply NF.
+    destruct (fat_val g im' x); try discriminate. reflexivity.
+  - intros x Hx. destruct (Hin x Hx) as (_ & F & _). rewrite F. reflexivity.
+  - intros x R Hn. rewrite (Hout x ltac:(lia) Hn). reflexivity.
+Qed.
+
+(* ownership map of one chain without repetition: no cross-link; exactly its clusters are owned *)
+Lemma succ_pos_inj a b : N.succ_pos a = N.succ_pos b -> a = b.
+Proof. intros H. rewrite <- (N.pos_pred_succ a), <- (N.pos_pred_succ b), H. reflexivity. Qed.
+
+Lemma own_clusters_nodup : forall l m, NoDup l -> (forall x, In x l -> PositiveMap.find (N.succ_pos x) m = None) ->
+  exists m', Wf.own_clusters l m = (m', []) /\
+    forall x, PositiveMap.find (N.succ_pos x) m' = (if in_dec N.eq_dec x l then Some tt else PositiveMap.find (N.succ_pos x) m).
+Proof.
+  induction l as [|c l IH]; intros m Hnd Hfree.
+  - exists m. split; [reflexivity|]. intros x. reflexivity.
+  - inversion Hnd as [|? ? Hnotin Hnd']; subst. cbn [Wf.own_clusters]. rewrite (Hfree c (or_introl eq_refl)).
+    destruct (IH (PositiveMap.add (N.succ_pos c) tt m) Hnd') as (m' & E & Hm').
+    { intros x Hx. rewrite PositiveMap.gso; [apply Hfree; right; exact Hx|].
+      intros C. apply succ_pos_inj in C. subst x. contradiction. }
+    exists m'. split; [exact E|]. intros x. rewrite Hm'.
+    destruct (in_dec N.eq_dec x l) as [Hi|Hi]; destruct (in_dec N.eq_dec x (c :: l)) as [Hj|Hj]; try reflexivity.
+    + exfalso. apply Hj. right. exact Hi.
+    + destruct Hj as [<-|Hj]; [apply PositiveMap.gss|contradiction].
+    + rewrite PositiveMap.gso; [reflexivity|]. intros C. apply succ_pos_inj in C. subst x. apply Hj. left. reflexivity.
+Qed.
+
+(* a FAT12/16 volume whose root holds exactly one plain file: chain length matches the size, the chain has no repetition
+   and every allocated cluster belongs to it => no C03 issue at all *)
+Lemma wf_single fold im e l content :
+  let g := v_geom (abs im) in
+  g_bits g <> 32 -> v_root_chain (abs im) = None -> v_root_issues (abs im) = [] ->
+  v_root (abs im) = [NFile e (if e_cluster e =? 0 then None else Some l) content] ->
+  (e_cluster e = 0 <-> e_size e = 0) ->
+  (e_cluster e <> 0 -> len_N l = Wf.ceil_div (e_size e) (g_cluster_size g)) -> NoDup l ->
+  (forall x, 2 <= x < g_clusters g + 2 -> fat_val g im x = FFree \/ (e_cluster e <> 0 /\ In x l)) ->
+  Wf.wf_issues fold im = [].
+Proof.
+  intros g Hb Hrc Hri Hr Hz Hlen Hnd Hall. unfold Wf.wf_issues. cbv zeta. fold g. rewrite Hrc, Hri, Hr.
+  apply N.eqb_neq in Hb. rewrite Hb. cbn [app map].
+  assert (Wf.names_issues fold 0 [NFile e (if e_cluster e =? 0 then None else Some l) content] = []) as ->.
+  { unfold Wf.names_issues. cbn [map node_entry Wf.has_dup existsb orb app filter].
+    destruct (negb match e_lfn e with [] => true | _ :: _ => false end); reflexivity. }
+  cbn [app]. unfold Wf.nodes_issues, Wf.nodes_chains. cbn [flat_map app Wf.node_issues Wf.node_chains].
+  destruct (N.eqb_spec (e_cluster e) 0) as [Z|NZ].
+  - rewrite (proj2 (N.eqb_eq _ _) (proj1 Hz Z)). cbn [concat Wf.own_clusters app].
+    rewrite (FormatImageAbs.lost_from_nil g im); [reflexivity|].
+    intros x Hx. destruct (Hall x ltac:(lia)) as [F|[C _]]; [left; exact F|contradiction].
+  - assert (e_size e <> 0) as SZ by (intros C; apply NZ; apply Hz; exact C).
+    rewrite (proj2 (N.eqb_neq _ _) SZ). rewrite (Hlen NZ), N.eqb_refl. cbn [concat app]. rewrite app_nil_r.
+    destruct (own_clusters_nodup l (PositiveMap.empty unit) Hnd) as (m' & E & Hm').
+    { intros x _. apply PositiveMap.gempty. }
+    rewrite E. cbn [app].
+    rewrite (FormatImageAbs.lost_from_nil g im m'); [reflexivity|].
+    intros x Hx. destruct (Hall x ltac:(lia)) as [F|[_ Hin]]; [left; exact F|right; right].
+    rewrite Hm'. destruct (in_dec N.eq_dec x l); [reflexivity|contradiction].
+Qed.
